@@ -30,7 +30,7 @@ type mgen struct {
 
 var niceStrings = []string{
 	"", "a", "hello world", "with \"quotes\" and \\backslash\\", "slash/and\bbs\fff\nnl\rcr\ttab", "\x01\x02\x1f ctl", "\x7f del",
-	"😀𝄞 non-BMP", "﻿BOM", "line sep ", "repl�char", "null", "true", "123", "-0", "1e5", "ключ значение", "日本語", "<script>&amp;'",
+	"😀𝄞 non-BMP", "\ufeffBOM", "line sep ", "repl\ufffdchar", "null", "true", "123", "-0", "1e5", "ключ значение", "日本語", "<script>&amp;'",
 	"{\"json\":1}", "!type", "value", "a.b.c", " lead and trail ", "é́ combining", "\U0010ffff max", "\u0000nul",
 }
 
@@ -584,8 +584,14 @@ func checkRepr(ts *typeSet, m protoreflect.Message) (ok bool, why string) {
 						}
 					}
 					if len(js) > 0 {
-						if _, err := parseStrict(js); err != nil {
+						if doc, err := parseStrict(js); err != nil {
 							bad("any-bad-json")
+						} else if ir := ts.rootOf(md); !ir.broken {
+							// the stored JSON must itself be a valid J5 document of the named type
+							nz := &normalizer{ts: ts, mode: "p"}
+							if _, err := nz.root(ir, doc, "$"); err != nil || nz.nonFinite {
+								bad("any-bad-json-content")
+							}
 						}
 					}
 				}
